@@ -3397,7 +3397,8 @@ void Analyser::analyseModel(const ModelPtr &model)
 bool Analyser::addExternalVariable(const AnalyserExternalVariablePtr &externalVariable)
 {
     // An external variable has to name a variable, and that variable has to be part of a model.
-    if ((externalVariable == nullptr) || (owningModel(externalVariable->variable()) == nullptr)) {
+    if ((externalVariable == nullptr) || (externalVariable->variable() == nullptr)
+        || (owningModel(externalVariable->variable()) == nullptr)) {
         return false;
     }
 
